@@ -366,6 +366,9 @@ func Representatives() [][]ev.E {
 	out = append(out, []ev.E{ev.EABegin(events.ArrayTypeUint16), ev.EChunk(1, true), ev.EData(c[:1]), ev.EData(c[1:2]), ev.EChunk(3, false), ev.EData(c[2:5]), ev.EData(c[5:])})
 	out = append(out, []ev.E{ev.ECBegin(events.ArrayTypeCustomBinary, 2), ev.EChunk(2, false), ev.EData([]byte{1}), ev.EData([]byte{2})})
 	out = append(out, []ev.E{ev.EMBegin("a/b"), ev.EChunk(2, true), ev.EData([]byte{1, 2}), ev.EChunk(2, false), ev.EData([]byte{3, 4})})
+	// empty continued chunks in the middle of a string and of a numeric array
+	out = append(out, []ev.E{ev.EABegin(events.ArrayTypeString), ev.EChunk(3, true), ev.EData([]byte("abc")), ev.EChunk(0, true), ev.EChunk(2, false), ev.EData([]byte("de"))})
+	out = append(out, []ev.E{ev.EABegin(events.ArrayTypeUint16), ev.EChunk(0, true), ev.EChunk(1, true), ev.EData([]byte{1, 2}), ev.EChunk(0, true), ev.EChunk(1, false), ev.EData([]byte{3, 4})})
 	out = append(out, []ev.E{ev.EList(), ev.EEnd()}, []ev.E{ev.EMap(), ev.EStr("k"), ev.EPInt(1), ev.EEnd()})
 	return out
 }
